@@ -17,7 +17,7 @@ import inspect
 import re
 import types
 
-from engine.api import QUICK, cond, pick, task
+from engine.api import QUICK, REPO, cond, pick, task
 
 from vgi_rpc import metadata as md
 from vgi_rpc.rpc import _server as srv
@@ -49,7 +49,7 @@ def _tests_corpus() -> list[str]:
     import glob
 
     out: set[str] = set()
-    for path in glob.glob("/repo/tests/**/*.py", recursive=True):
+    for path in glob.glob(REPO + "/tests/**/*.py", recursive=True):
         try:
             src = open(path).read()
         except OSError:
